@@ -387,6 +387,9 @@ func (w *Worker) step(s *State) {
 	advance := w.exec(s, f, in)
 	if advance {
 		f.ip++
+		if s.threads != nil {
+			s.opDone()
+		}
 	}
 }
 
@@ -523,6 +526,9 @@ func (w *Worker) exec(s *State, f *Frame, in ssa.Instruction) bool {
 	case *ssa.BinOp:
 		w.set(f, x, w.binop(s, x.Op, x.X.Type(), w.eval(s, f, x.X), w.eval(s, f, x.Y), x.Y.Type()))
 	case *ssa.UnOp:
+		if x.Op == token.ARROW {
+			return w.recvStmt(s, f, x)
+		}
 		w.set(f, x, w.unop(s, x, w.eval(s, f, x.X)))
 	case *ssa.Phi:
 		// all phis of a block are evaluated "simultaneously": compute all, then assign
@@ -742,14 +748,9 @@ func (w *Worker) exec(s *State, f *Frame, in ssa.Instruction) bool {
 	case *ssa.Extract:
 		w.set(f, x, w.eval(s, f, x.Tuple).(TupleV)[x.Index])
 	case *ssa.Send:
-		ch := w.eval(s, f, x.Chan).(ChanV)
-		if ch.O == nil {
-			panic(unsupported{"send on nil channel (blocks forever)"})
-		}
-		if len(ch.O.Queue) >= ch.O.Cap {
-			panic(unsupported{"send on full channel would block (no thread model)"})
-		}
-		ch.O.Queue = append(ch.O.Queue, w.eval(s, f, x.X))
+		return w.sendStmt(s, f, x)
+	case *ssa.Select:
+		return w.selectStmt(s, f, x)
 	default:
 		panic(unsupported{fmt.Sprintf("instruction %T", in)})
 	}
@@ -825,6 +826,10 @@ func (w *Worker) applyIndex(s *State, idx *Term, n, d int) int {
 func (w *Worker) doReturn(s *State, f *Frame, res Value) {
 	if len(f.defers) > 0 && !f.runningDefers {
 		// cannot happen: go/ssa emits RunDefers before Return
+	}
+	if len(s.frames) == 1 && s.threads != nil && s.cur != 0 {
+		w.threadExit(s)
+		return
 	}
 	s.frames = s.frames[:len(s.frames)-1]
 	if len(s.frames) == 0 {
@@ -1029,10 +1034,6 @@ func (w *Worker) typeAssert(s *State, f *Frame, x *ssa.TypeAssert) {
 		panic(crash{"interface conversion failed: " + x.AssertedType.String()})
 	}
 	w.set(f, x, res)
-}
-
-func (w *Worker) goStmt(s *State, f *Frame, x *ssa.Go) bool {
-	panic(unsupported{"go statement (no thread model)"})
 }
 
 // shareWork hands the older half of the local work stack to idle workers. A state is shipped as
